@@ -89,6 +89,18 @@ Theorem C07_slave_roundtrip : forall s, wf_slave s -> slave_load (slave_save s) 
 Proof. exact slave_roundtrip. Qed.
 Print Assumptions C07_slave_roundtrip.
 
+(* what GET /devices shows of a slave is a function of its entry, so it survives as well; passwords pending provisioning
+   (kept in clear text in the entry, provisioning needs them) are shown as "set" / "" only *)
+Theorem C07_slave_document_roundtrip : forall s,
+  wf_slave s -> option_map slave_doc (slave_load (slave_save s)) = Some (slave_doc s).
+Proof. exact slave_doc_roundtrip. Qed.
+Print Assumptions C07_slave_document_roundtrip.
+
+Theorem C07_slave_document_hides_passwords : forall l n v,
+  In (n, v) (map expose l) -> ends_with "_password" n = true -> v = JStr "set" \/ v = JStr "".
+Proof. exact exposed_hides_passwords. Qed.
+Print Assumptions C07_slave_document_hides_passwords.
+
 (* persisted slave ports (a permanently offline slave has its ports from the store only): after a restart the slave named n has
    exactly the ports whose record id is n + "." + remote id — whatever the remote id is, dots included — and no other slave
    with a dot-free name (device names cannot contain dots) claims such a record *)
